@@ -59,3 +59,11 @@ package cred
 //@ func (*Manager).RegisterServer
 //@   requires !isnil(m) && !isnil(m.servers)
 //@   ensures isnil(result1) ==> !isnil(result0) && !isnil(result0.cachedCredMap) && !isnil(result0.cachedUserLookupMap)
+
+// After a successful save the cached content is exactly what was written to the store file (so that the
+// "unchanged file" fast path of LoadFromFile compares against what is on disk), and the file written is the
+// server's own store file.
+//@ func (*ManagedServer).saveToFile
+//@   requires !isnil(s)
+//@   callsite WriteFile: arg0 == s.path
+//@   ensures isnil(result) ==> s.cachedContent == string(b)
